@@ -33,6 +33,8 @@ type C05Scenario struct {
 	WaitEach     bool     `json:"wait_each"` // Wait after every publish (otherwise only at the end)
 	Obs          bool     `json:"obs,omitempty"`     // bus configured with an Observability
 	ViaAny       bool     `json:"via_any,omitempty"` // publish through an interface-typed value (reflection dispatch path)
+	PHViaSetter  bool     `json:"ph_via_setter,omitempty"` // install the panic handler with SetPanicHandler after the subscriptions were made
+	PHRetries    bool     `json:"ph_retries,omitempty"`    // the panic handler re-enters the bus: it publishes a retry event (id+1000) of the same type
 }
 
 type customPanic struct{ N int }
@@ -81,6 +83,8 @@ func genC05(rt *rapid.T) core.Scenario {
 	sc.WaitEach = rapid.Bool().Draw(rt, "waitEach")
 	sc.Obs = rapid.IntRange(0, 3).Draw(rt, "obs") == 3
 	sc.ViaAny = rapid.IntRange(0, 3).Draw(rt, "viaAny") == 3
+	sc.PHViaSetter = sc.PanicHandler && rapid.IntRange(0, 2).Draw(rt, "phViaSetter") == 2
+	sc.PHRetries = sc.PanicHandler && rapid.IntRange(0, 3).Draw(rt, "phRetries") == 3
 	sc.Tape = core.DrawTape(rt, 300)
 	return sc
 }
@@ -102,6 +106,7 @@ func (sc *C05Scenario) Execute(t *testing.T) *core.Outcome {
 	calls := map[int]int{}    // reg index -> number of invocations
 	var phCalls []c05PH
 	var injected []c05PH
+	var retries []int
 	pubReturned := 0
 	waitReturned := false
 	finalCount := -1
@@ -111,15 +116,20 @@ func (sc *C05Scenario) Execute(t *testing.T) *core.Outcome {
 	}
 	body := func() {
 		var opts []eventbus.Option
-		if sc.PanicHandler {
-			opts = append(opts, eventbus.WithPanicHandler(func(event any, ht reflect.Type, v any) {
-				if simrt.Dying() {
-					return
-				}
-				id, ok := ops.IDOf(event)
-				phCalls = append(phCalls, c05PH{EvID: id, EvOK: ok, HT: ht, Value: v})
-				w.Rec.Add("panic-handler", id, 0, fmt.Sprint(ht))
-			}))
+		ph := func(event any, ht reflect.Type, v any) {
+			if simrt.Dying() {
+				return
+			}
+			id, ok := ops.IDOf(event)
+			phCalls = append(phCalls, c05PH{EvID: id, EvOK: ok, HT: ht, Value: v})
+			w.Rec.Add("panic-handler", id, 0, fmt.Sprint(ht))
+			if sc.PHRetries && ok && id < 1000 {
+				retries = append(retries, id+1000)
+				ops.Pub(w, context.Background(), id+1000) // user code re-entering the bus from the panic handler
+			}
+		}
+		if sc.PanicHandler && !sc.PHViaSetter {
+			opts = append(opts, eventbus.WithPanicHandler(ph))
 		}
 		if sc.Obs {
 			opts = append(opts, eventbus.WithObservability(nopObs{}))
@@ -151,6 +161,9 @@ func (sc *C05Scenario) Execute(t *testing.T) *core.Outcome {
 				out.HarnessErr = err.Error()
 				return
 			}
+		}
+		if sc.PanicHandler && sc.PHViaSetter {
+			w.Bus.SetPanicHandler(ph) // a configuration setter: completed before any concurrent use begins
 		}
 		for _, id := range sc.Pubs {
 			w.Rec.Add("pub", id, 0, "")
@@ -201,9 +214,10 @@ func (sc *C05Scenario) Execute(t *testing.T) *core.Outcome {
 	// expected deliveries: static registrations, so each registration receives every accepted event once
 	// (a Once registration only the first accepted one) whatever the other handlers do
 	expectCount := 0
+	allPubs := append(append([]int{}, sc.Pubs...), retries...)
 	for ri, r := range sc.Regs {
 		var want []int
-		for _, id := range sc.Pubs {
+		for _, id := range allPubs {
 			if !filterAccepts(r.Opts.Filter, id) {
 				continue
 			}
@@ -213,7 +227,12 @@ func (sc *C05Scenario) Execute(t *testing.T) *core.Outcome {
 			want = append(want, id)
 		}
 		got := invs[ri]
-		if r.Opts.Async {
+		if r.Opts.Once && len(retries) > 0 {
+			// with nested retry publishes the Once handler fires for whichever accepted event reaches it first
+			if len(want) > 0 && len(got) != 1 {
+				out.V("delivery-lost-or-duplicated", "once registration %d received %v", ri, got)
+			}
+		} else if r.Opts.Async || len(retries) > 0 {
 			if !sameMultiset(want, got) {
 				out.V("delivery-lost-or-duplicated", "async registration %d (%+v, panics on %v) received %v, expected %v in some order", ri, r.Opts, r.PanicOn, got, want)
 			}
